@@ -1628,6 +1628,11 @@ def main(argv):
         print(json.dumps(u.report.entries, indent=1), file=sys.stderr)
         return 0
     ur = check_unit(a.unit, a.variant, a.rlimit, a.relock, not a.no_vacuity)
+    if a.relock and not a.variant:
+        # the variants' lock files go stale together with the main one
+        import glob as _g
+        for lf in _g.glob(os.path.join(VERIF, "contracts", a.unit, "obligations.lock.*")):
+            check_unit(a.unit, lf.rsplit(".", 1)[1], a.rlimit, True, False)
     d = dict(ur.__dict__)
     for f in d["failed"]:
         print(f["rendered"], file=sys.stderr)
